@@ -196,7 +196,11 @@ def reader_rows(p, rd):
                                 continue
                             # which field does the parameter initialise?
                             for st in walk_no_nested(f.node):
-                                if isinstance(st, ast.Assign) and isinstance(st.targets[0], ast.Attribute) and norm(st.targets[0].value) == f.params[0] and isinstance(st.value, ast.Name) and st.value.id == pn:
+                                stv = st.value if isinstance(st, ast.Assign) else None
+                                # `self.x = p if p is not None else <default>` initialises x from p when p is given
+                                if isinstance(stv, ast.IfExp) and isinstance(stv.body, ast.Name) and norm(stv.test).replace(" ", "") in (f"{stv.body.id}isnotNone", f"{stv.body.id}!=None", stv.body.id):
+                                    stv = stv.body
+                                if isinstance(st, ast.Assign) and isinstance(st.targets[0], ast.Attribute) and norm(st.targets[0].value) == f.params[0] and isinstance(stv, ast.Name) and stv.id == pn:
                                     rows.setdefault((cls, tag, s[0]), []).append((q.split(".")[-1], st.targets[0].attr, s[1], n))
     return rows, ctx_of_tag
 
@@ -220,6 +224,10 @@ def writer_value(p, e, f):
     """(class, field, conv) of a value expression in a builder, or None"""
     conv = None
     x = e
+    if isinstance(x, ast.Name) and f is not None:
+        from .c11 import _resolve_in_scope
+
+        x = _resolve_in_scope(f, x)  # a local holding the converted value
     if isinstance(x, ast.Call):
         nm = norm(x.func)
         if nm.endswith("convert_local_path_to_posix") and x.args:
